@@ -22,6 +22,8 @@ package main
 //@   property C10 C18 C12
 //@   ensures [version_first_build_info_second] exists k int :: old(tlen()) <= k && k < tlen() && evIs(k, "internal/cmd:NewBuildCmd")
 //@        && evS1(k) == bv.GitVersion && evS2(k) == buildInfo(bv)
+// (a status the operating system reports as non-zero: 1..255 - larger numbers are truncated to their low eight bits)
+//@   ensures [failure_exit_status_is_between_1_and_255] forall k int :: old(tlen()) <= k && k < tlen() && evIs(k, "os.Exit") ==> 1 <= evI1(k) && evI1(k) <= 255
 //@   ensures [nonzero_exit_iff_error] tlen() > old(tlen()) && (evIs(tlen() - 1, "os.Exit")
 //@        ? (tlen() - 2 >= old(tlen()) && evIs(tlen() - 2, "github.com/spf13/cobra.(*Command).Execute") && evErr(tlen() - 2) != nil)
 //@        : (evIs(tlen() - 1, "github.com/spf13/cobra.(*Command).Execute") && evErr(tlen() - 1) == nil))
